@@ -32,6 +32,9 @@ trait Fb: Send + Sync {
     fn image_map(&self) -> Map<u32>;
     /// as_image().sub_image(area) drawn at the area's own position
     fn sub_image_map(&self, area: (i32, i32, u32, u32)) -> Map<u32>;
+    /// as_image() drawn at `at` into a target whose bounding box is `win` (clipped: into an unbounded native target
+    /// behind `clipped(&win)`); the pixels that arrived inside `win`
+    fn windowed_image_map(&self, at: P2, win: (i32, i32, u32, u32), clipped: bool) -> Map<u32>;
     fn apply(&mut self, a: &Act, mask: u32);
     /// the ordered pixel writes the drawable of `Act::Drawable` makes on an unbounded recording target
     fn drawable_writes(&self, kind: u8, v: u32, mask: u32) -> Vec<(P2, u32)>;
@@ -76,6 +79,22 @@ macro_rules! fb_impl {
                 let mut t = RecD::<$c>::new();
                 Image::new(&img, Point::zero()).draw(&mut t).unwrap();
                 t.map.iter().map(|(k, c)| (*k, raw_u32(*c))).collect()
+            }
+            fn windowed_image_map(&self, at: P2, win: (i32, i32, u32, u32), clipped: bool) -> Map<u32> {
+                use embedded_graphics::draw_target::DrawTargetExt;
+                let img = self.as_image();
+                let w = rect(win.0, win.1, win.2, win.3);
+                let image = Image::new(&img, Point::new(at.0, at.1));
+                let m = if clipped {
+                    let mut t = RecN::<$c>::new();
+                    image.draw(&mut t.clipped(&w)).unwrap();
+                    t.map
+                } else {
+                    let mut t = RecD::<$c>::with_box(w);
+                    image.draw(&mut t).unwrap();
+                    t.map
+                };
+                m.iter().filter(|(k, _)| clipped || w.contains(Point::new(k.0, k.1))).map(|(k, c)| (*k, raw_u32(*c))).collect()
             }
             fn sub_image_map(&self, a: (i32, i32, u32, u32)) -> Map<u32> {
                 use embedded_graphics::image::ImageDrawableExt;
@@ -248,6 +267,18 @@ fn check_state(s: &St, obs: &mut Obs) {
     let want: Map<u32> = s.model.iter().map(|(k, v)| (*k, *v)).collect();
     if im != want {
         obs.fail("as_image-reproduces-content", map_diff(&im, &want));
+    }
+    // as_image() seen through target windows and through the clipped adapter: cut at the left/top by a window at the
+    // origin, two rows and a column cut by a window inside, three rows cut
+    for (at, win) in [((-1, -2), (0, 0, w as u32, h as u32)), ((0, 0), (1, 2, w as u32, h as u32)), ((0, 0), (0, 3, w as u32 + 1, h as u32)), ((2, 1), (2, 1, w as u32, h as u32))] {
+        for clipped in [false, true] {
+            let got = f.windowed_image_map(at, win, clipped);
+            let wanted: Map<u32> = s.model.iter().map(|(k, v)| ((k.0 + at.0, k.1 + at.1), *v)).filter(|(k, _)| k.0 >= win.0 && k.1 >= win.1 && (k.0 as i64) < win.0 as i64 + win.2 as i64 && (k.1 as i64) < win.1 as i64 + win.3 as i64).collect();
+            if got != wanted {
+                obs.fail("as_image-through-a-target-window-reproduces-content", format!("image at {:?}, window {:?}, behind clipped(): {clipped}: {}", at, win, map_diff(&got, &wanted)));
+                break;
+            }
+        }
     }
     // the same through sub-images of as_image(): the whole box, and everything but the first column and row
     for area in [(0, 0, w as u32, h as u32), (1, 1, w as u32, h as u32), (-1, 0, w as u32, 9)] {
